@@ -76,6 +76,9 @@ pub enum Phase {
     /// a housekeeping job removes every empty directory below the archive root
     /// (and the archive root itself if it is empty)
     Sweep,
+    /// the whole archive directory is removed from outside, archives and all (a
+    /// clean-up job, an operator): rotation must recreate what it needs
+    Purge,
 }
 
 #[derive(Clone, Debug, Serialize, Deserialize, PartialEq)]
@@ -659,17 +662,22 @@ fn gen_start(rng: &mut Rng, tz: &str) -> i64 {
 pub fn generate_encfail(rng: &mut Rng, tier: Tier, base_profile: &str) -> Scn {
     let mut s = generate(rng, tier, base_profile);
     s.encoder = EncKind::Chunk { seed: rng.next_u64() };
+    let first_heavy = base_profile == "C17" || base_profile == "C16";
     let mut tid = 0u16;
     for ph in s.phases.iter_mut() {
         match ph {
             Phase::Restart { overlap, .. } => *overlap = false,
             Phase::Work { threads } => {
                 for t in threads.iter() {
+                    let mut first = true;
                     for op in t {
                         if let Op::Append { n, .. } = op {
-                            if rng.chance(1, 4) {
+                            // the first record of a burst is the one that meets a start-up roll or a
+                            // time boundary: a failure in the same call as a rotation
+                            if rng.chance(1, 4) || (first && first_heavy && rng.chance(1, 2)) {
                                 s.enc_fail.push((tid, *n));
                             }
+                            first = false;
                         }
                     }
                     tid += 1;
@@ -700,6 +708,8 @@ pub fn generate(rng: &mut Rng, tier: Tier, profile: &str) -> Scn {
         phases.push(Phase::Sweep);
     }
     let nwork = rng.weighted(&[5, 3, 2]) + 1;
+    // sometimes the archive directory is purged between lifetimes or between bursts of records
+    let purging = rng.chance(1, 6) && !matches!(roller, RollerSpec::Fixed { pat: PatKind::SecondMount | PatKind::DirSplit, .. });
     let mut tid_next = 0u16;
     let mut fire = vec![];
     let mut silent: Vec<(u16, u16)> = vec![];
@@ -707,12 +717,18 @@ pub fn generate(rng: &mut Rng, tier: Tier, profile: &str) -> Scn {
     let limit = if let TriggerSpec::Size { limit } = &trigger { Some(*limit) } else { None };
     let mut cur: u64 = if append { pre_active.as_ref().map(|l| hist_bytes(0, l).len() as u64).unwrap_or(0) } else { 0 };
     for w in 0..nwork {
-        if w > 0 {
+        if w > 0 && purging && rng.chance(1, 2) {
+            // the same appender goes on after the purge
+            phases.push(Phase::Purge);
+        } else if w > 0 {
             let ap = if rng.chance(4, 5) { append } else { !append };
             let dirty = rng.chance(1, 5);
             phases.push(Phase::Restart { append: ap, dirty, overlap: ap && append && !dirty && rng.chance(1, 3) });
             if rng.chance(1, 4) {
                 phases.push(Phase::Sweep);
+            }
+            if purging && rng.chance(1, 3) {
+                phases.push(Phase::Purge);
             }
             if !ap {
                 cur = 0;
@@ -893,7 +909,7 @@ fn build_appender(scn: &Scn, sh: &Arc<Shared>, append: bool) -> anyhow::Result<B
     let roller: Box<dyn Roll> = Box::new(ProbeRoller { inner: rmodel::build_roller(&scn.roller, &sh.names)?, sh: sh.clone() });
     let policy_parts: PolicyParts = (std::cell::Cell::new(Some(trigger)), roller);
     let inner_enc: Box<dyn Encode> = match &scn.encoder {
-        EncKind::Chunk { seed } if !scn.enc_fail.is_empty() => Box::new(common::ChunkEncoder { seed: *seed, fail: scn.enc_fail.clone() }),
+        EncKind::Chunk { seed } if !scn.enc_fail.is_empty() => Box::new(common::ChunkEncoder { seed: *seed, fail: scn.enc_fail.clone(), quiet: false }),
         e => common::make_encoder(e),
     };
     let enc = ProbeEncoder { inner: inner_enc, sh: sh.clone() };
@@ -1266,7 +1282,7 @@ pub fn execute(scn: &Scn, opts: &ExecOpts) -> Outcome {
     let scratch = Scratch::new("r");
     let root2 = if matches!(scn.roller, RollerSpec::Fixed { pat: PatKind::SecondMount | PatKind::DirSplit, .. }) {
         fsutil::second_mount_base().map(|b| {
-            let p = b.join("r");
+            let p = b.join(scratch.root.file_name().unwrap());
             let _ = fs::remove_dir_all(&p);
             fs::create_dir_all(&p).unwrap();
             p
@@ -1480,6 +1496,17 @@ pub fn execute(scn: &Scn, opts: &ExecOpts) -> Outcome {
                     }
                 })]
             }
+            Phase::Purge => {
+                let sh = sh.clone();
+                vec![Box::new(move || {
+                    wait_for_bg_rotation();
+                    let _ = fs::remove_dir_all(sh.names.root.join("arch"));
+                    let mut m = sh.model.lock().unwrap();
+                    m.purge_archives();
+                    kernel::note("purge", "");
+                    sh.sink.probe("archive_directory_purged", 1);
+                })]
+            }
             Phase::Sweep => {
                 let sh = sh.clone();
                 vec![Box::new(move || {
@@ -1639,6 +1666,12 @@ pub fn execute(scn: &Scn, opts: &ExecOpts) -> Outcome {
     out.probes = probes;
     if overlapped {
         out.probe("appends_overlapped", 1);
+    }
+    if summary.faults_fired.len() >= 2 {
+        out.probe("runs_with_two_injected_errors_fired", 1);
+    }
+    if !summary.faults_fired.is_empty() && summary.crash_fired {
+        out.probe("runs_with_injected_error_then_process_death", 1);
     }
     let fires = *sh.c16_boundary_fires.lock().unwrap();
     out.nontrivial = match &scn.trigger {
@@ -1988,6 +2021,53 @@ pub fn fault_variants(scn: &Scn, hits: &[(String, u32)]) -> Vec<Scn> {
             c.faults = vec![];
             c.crash = Some(CrashSpec { site: site.clone(), nth: *nth });
             c.liveness = true;
+            out.push(c);
+        }
+    }
+    // fault *sequences*: a sample of two-fault histories per base run. The
+    // second fault is placed where the recovery from the first one passes:
+    // the retry of the same step (same site, next occurrence), the re-open
+    // that follows a failed rotation, or any later step; and a process death
+    // during the retry of a step that failed.
+    let faultable: Vec<&(String, u32)> = hits.iter().filter(|(s, _)| FAULT_SITES.contains(&s.as_str())).collect();
+    if !faultable.is_empty() {
+        let mut rng = Rng::new(scn.sched_seed ^ 0xD0B1E);
+        for _ in 0..faultable.len().min(4) {
+            let i = rng.below(faultable.len() as u64) as usize;
+            let (s1, n1) = faultable[i];
+            let first = FaultSpec { site: s1.clone(), nth: *n1, errno: errnos[k % errnos.len()] };
+            k += 1;
+            let mut c = scn.clone();
+            c.crash = None;
+            c.liveness = true;
+            match rng.below(4) {
+                0 => {
+                    // the same step fails again at its next occurrence
+                    c.faults = vec![first, FaultSpec { site: s1.clone(), nth: *n1 + 1, errno: errnos[k % errnos.len()] }];
+                }
+                1 => {
+                    // the re-open after the failed rotation fails too. `rf.open` occurrences up to
+                    // the first fault are those of the base run; the next one is the re-open
+                    let opens_before = hits.iter().take_while(|h| !(h.0 == *s1 && h.1 == *n1)).filter(|h| h.0 == "rf.open").count() as u32;
+                    c.faults = vec![first, FaultSpec { site: "rf.open".into(), nth: opens_before + 1, errno: errnos[k % errnos.len()] }];
+                }
+                2 => {
+                    // any later step of the base run
+                    let j = i + rng.below((faultable.len() - i) as u64) as usize;
+                    let (s2, n2) = faultable[j];
+                    if (s2, n2) == (s1, n1) {
+                        c.faults = vec![first, FaultSpec { site: s1.clone(), nth: *n1 + 2, errno: errnos[k % errnos.len()] }];
+                    } else {
+                        c.faults = vec![first, FaultSpec { site: s2.clone(), nth: *n2, errno: errnos[k % errnos.len()] }];
+                    }
+                }
+                _ => {
+                    // the process dies during the retry of the step that failed
+                    c.faults = vec![first];
+                    c.crash = Some(CrashSpec { site: s1.clone(), nth: *n1 + 1 });
+                }
+            }
+            k += 1;
             out.push(c);
         }
     }
